@@ -10,6 +10,7 @@ value and every machine state (in particular every device behaviour `c.dev`).
 import X86Model.Model.Port
 import X86Model.Spec.Port
 import X86Model.Proofs.TrapBits
+import X86Model.Spec.AsmOptions
 
 namespace X86.C18
 open X86 X86.Spec X86.Port
@@ -88,5 +89,33 @@ example : (read (new .b16 .readWrite 0x3f8#16) devEx).res = .ok 0x03f8#32 := by 
 example : (read (new .b32 .readWrite 0xffff#16) devEx).res = .ok 0xabcdffff#32 := by decide
 example : (write (new .b16 .writeOnly 0x80#16) 0x1234#32 devEx).trace = [Insn.out .b16 0x80#16 0x1234#32] := rfl
 example : Port.eq (new .b8 .readWrite 1#16) (new .b8 .readWrite 2#16) = false := by decide
+
+/-! ### The `asm!` blocks behind this property (re-extracted from the source on every run)
+
+`Generated.asmSites` is rewritten by `translator/gen_asm.py` from the `asm!` invocations of the
+crate; the theorems below are re-checked by the kernel against what the source says now. They
+constrain what the compiler may do with the blocks (delete, merge, hoist, reorder memory accesses
+across them) — behaviour that only shows in particular build profiles. -/
+
+/-- Every `asm!` block of the files this property is anchored in carries only options its
+instructions admit (`Spec/AsmOptions.lean`): no `pure` on instructions with side effects, no
+`nomem`/`readonly` where the hardware dereferences the operand, no `nostack` on pushes/pops. -/
+theorem asm_options_admissible :
+    ∀ s ∈ Spec.AsmOptions.sitesOfFiles ["src/instructions/port.rs"], Spec.AsmOptions.admissible s = true := by
+  decide +kernel
+
+example : (Spec.AsmOptions.sitesOfFiles ["src/instructions/port.rs"]).length > 0 := by decide +kernel
+
+/-- The six port blocks: one `in`/`out` of the width's accumulator with the port in DX, value in
+AL/AX/EAX, and nothing else. -/
+theorem port_blocks_shape :
+    (Spec.AsmOptions.sitesOfFiles ["src/instructions/port.rs"]).map (fun s => (s.func, s.insns, s.operands)) =
+      [("read_from_port", ["in al, dx"], ["out(\"al\")", "in(\"dx\")"]),
+       ("read_from_port", ["in ax, dx"], ["out(\"ax\")", "in(\"dx\")"]),
+       ("read_from_port", ["in eax, dx"], ["out(\"eax\")", "in(\"dx\")"]),
+       ("write_to_port", ["out dx, al"], ["in(\"dx\")", "in(\"al\")"]),
+       ("write_to_port", ["out dx, ax"], ["in(\"dx\")", "in(\"ax\")"]),
+       ("write_to_port", ["out dx, eax"], ["in(\"dx\")", "in(\"eax\")"])] := by
+  decide +kernel
 
 end X86.C18
